@@ -398,11 +398,16 @@ def check_isosteric(ctx):
                         f'{(list(o.value["loading"][:3]), list(o.value["isosteric_enthalpy"][:3])) if o.ok else o.brief()[:160]} instead of '
                         f'{(list(want.value["loading"][:3]), list(want.value["isosteric_enthalpy"][:3]))}', {'conversion': conv, 'members': which}))
     # the same objects analysed, converted in place (unit only / basis), analysed again
-    for conv, lb, lu in ((dict(loading_unit='mol'), 'molar', 'mol'), (dict(loading_basis='mass', loading_unit='mg'), 'mass', 'mg'), (dict(pressure_unit='kPa'), 'molar', 'mmol')):
+    # (a pressure UNIT changed on every member alike shifts every ln p by one constant and cannot show in the slopes: the pressure conversions are therefore also
+    #  applied to single members, and to a mode whose factor depends on the temperature)
+    for conv, lb, lu, which in ((dict(loading_unit='mol'), 'molar', 'mol', (0, 1, 2)), (dict(loading_basis='mass', loading_unit='mg'), 'mass', 'mg', (0, 1, 2)),
+                                (dict(pressure_unit='kPa'), 'molar', 'mmol', (0, 1, 2)), (dict(pressure_unit='kPa'), 'molar', 'mmol', (1,)), (dict(pressure_unit='Pa'), 'molar', 'mmol', (0, 2)),
+                                (dict(pressure_mode='relative'), 'molar', 'mmol', (0, 1, 2)), (dict(pressure_mode='relative%'), 'molar', 'mmol', (2,)),
+                                (dict(pressure_unit='torr', loading_unit='mol'), 'molar', 'mol', (0, 1, 2))):
         objs = [clone(i) for i in isos]
         core.call(pgc.isosteric_enthalpy, objs, loading_points=[1.0, 2.0, 3.0, 5.0])
-        for o_ in objs:
-            o_.convert(**conv)
+        if not all(core.call(objs[w_].convert, **conv).ok for w_ in which):
+            continue
         c = ru.ads_consts('n-Butane', objs[0].temperature)
         with ru.library_tables():
             lp = [float(ru.c_loading(x, 'molar', 'mmol', lb, lu, c)) for x in (1.0, 2.0, 3.0, 5.0)]
@@ -411,7 +416,7 @@ def check_isosteric(ctx):
         nt += 1
         if b0.ok and (not o.ok or core.relerr(o.value['isosteric_enthalpy'], b0.value['isosteric_enthalpy']) > 1e-6):
             ctx.violate(core.make_violation({'check': 'analysis-convert-analysis', 'entry': 'isosteric_enthalpy'},
-                                            f'isosteric_enthalpy, then convert({conv}) on the same isotherm objects, then isosteric_enthalpy again: '
+                                            f'isosteric_enthalpy, then convert({conv}) on members {list(which)} of the same isotherm objects, then isosteric_enthalpy again: '
                                             f'{o.value["isosteric_enthalpy"] if o.ok else o.brief()[:160]} instead of {b0.value["isosteric_enthalpy"]}', {'conversion': conv}))
     ctx.add('isosteric_enthalpy', ev, nt)
     ctx.require('isosteric_enthalpy_cases', nt, 30)
